@@ -8,7 +8,7 @@ from .. import cv, gen, lib, ref
 from ..lib import call
 
 PROP = "C20"
-PLAN = {"quick": (2400, 400), "thorough": (30000, 3600)}
+PLAN = {"quick": (2400, 400), "thorough": (20000, 3600)}
 RULE = ("case = pair of planar curves: segments and polylines (1-4 segments each) that cross transversally / do not meet "
         "with overlapping or disjoint bounding boxes (expected set in closed form; kept only when every crossing is >=1e-3 "
         "in parameter from a segment end, the angle is >=3 degrees, and non-crossing pairs are >=1e-3 apart); Bezier "
